@@ -48,6 +48,8 @@ pub struct RShared {
     next: AtomicU64,
     broken: Mutex<HashSet<u64>>,
     invalid: Mutex<HashSet<u64>>,
+    /// the validity check of these connections fails exactly once (the next time it is asked)
+    invalid_once: Mutex<HashSet<u64>>,
     checks: AtomicU64,
 }
 pub struct RMgr(Arc<RShared>);
@@ -62,6 +64,9 @@ impl r2d2::ManageConnection for RMgr {
     }
     fn is_valid(&self, c: &mut RConn) -> Result<(), RErr> {
         let _ = self.0.checks.fetch_add(1, Ordering::SeqCst);
+        if self.0.invalid_once.lock().unwrap().remove(&c.serial) {
+            return Err(RErr("invalid (this once)".into()));
+        }
         if self.0.invalid.lock().unwrap().contains(&c.serial) {
             Err(RErr("invalid".into()))
         } else {
@@ -525,13 +530,22 @@ pub fn history(backend: Backend, seed: u64, idx: u64) -> Case {
                     let m = held[i].1;
                     match (&held[i].0, &pool) {
                         (AnyConn::R2d2(_), AnyPool::R2d2(_, sh)) => {
-                            if rng.chance(1, 2) {
-                                let _ = sh.broken.lock().unwrap().insert(m);
-                            } else {
-                                let _ = sh.invalid.lock().unwrap().insert(m);
-                            }
+                            let how = match rng.below(3) {
+                                0 => {
+                                    let _ = sh.broken.lock().unwrap().insert(m);
+                                    "broken"
+                                }
+                                1 => {
+                                    let _ = sh.invalid.lock().unwrap().insert(m);
+                                    "invalid"
+                                }
+                                _ => {
+                                    let _ = sh.invalid_once.lock().unwrap().insert(m);
+                                    "failing its next validity check only"
+                                }
+                            };
                             let _ = bad.insert(m);
-                            log.push(format!("marked #{} broken/invalid", m));
+                            log.push(format!("marked #{} {}", m, how));
                         }
                         (AnyConn::Diesel(c), _) => {
                             if !bad.contains(&m) {
